@@ -21,11 +21,12 @@ echo "--- build + baseline with the change"
 cargo build --workspace --offline 2>&1 | grep -E "^error" | head -3
 HV_REPO=$WT /verif/tools/baseline.sh | tail -1 | tee $OUT/baseline_with_change.txt
 echo "--- demo WITH change (must fail)"
-( eval "timeout 600 $DEMO_CMD" ) > $OUT/demo_with.log 2>&1; RC1=$?; echo "exit=$RC1"; tail -3 $OUT/demo_with.log
-git stash -q
+( timeout 600 bash -c "$DEMO_CMD" ) > $OUT/demo_with.log 2>&1; RC1=$?; echo "exit=$RC1"; tail -3 $OUT/demo_with.log
+# (no git stash: refs/stash is shared by all worktrees of the repository)
+git apply -R $OUT/patch.diff
 echo "--- demo WITHOUT change (must pass)"
-( eval "timeout 600 $DEMO_CMD" ) > $OUT/demo_without.log 2>&1; RC2=$?; echo "exit=$RC2"; tail -3 $OUT/demo_without.log
-git stash pop -q
+( timeout 600 bash -c "$DEMO_CMD" ) > $OUT/demo_without.log 2>&1; RC2=$?; echo "exit=$RC2"; tail -3 $OUT/demo_without.log
+git apply $OUT/patch.diff
 echo "--- check against /repo with the patch applied"
 cd /repo
 if ! git apply --check $OUT/patch.diff 2>/dev/null; then echo "PATCH DOES NOT APPLY TO /repo"; exit 3; fi
